@@ -1510,8 +1510,9 @@ MUTANTS = [
       "_adaptive", "            _subdomains=None,\n        )\n\n    def "
       "_adaptive"), "C12-R2"),
     ("line refinement maps cell k to 2k and 2k+2",
-     (_LI, "np.concatenate((2 * ixs, 2 * ixs + 1))", "np.concatenate((2 * "
-      "ixs, 2 * ixs + 2))"), "C12-R2"),
+     (_LI, "                                              2 * "
+      "np.asarray(ixs) + 1)))", "                                          "
+      "    2 * np.asarray(ixs) + 2)))"), "C12-R2"),
     ("subdomain warning tests the input again",
      (_ME, "        if has_subdomains and m.subdomains is None:",
       "        if has_subdomains and self.subdomains is None:"), "C12-R4"),
